@@ -14,11 +14,13 @@ import (
 	"github.com/attestantio/go-eth2-client/spec/bellatrix"
 	"github.com/attestantio/go-eth2-client/spec/phase0"
 	"github.com/attestantio/vouch/internal/vnd"
+	"github.com/attestantio/vouch/internal/vstub"
 	"github.com/attestantio/vouch/services/beaconblockproposer"
 	"github.com/attestantio/vouch/services/blockrelay"
 	v2 "github.com/attestantio/vouch/services/blockrelay/v2"
 	"github.com/attestantio/vouch/util"
 	"github.com/holiman/uint256"
+	e2wtypes "github.com/wealdtech/go-eth2-wallet-types/v2"
 )
 
 // c09Strategy is the bid strategy: its i-th call has a winner or not as scripted.
@@ -54,6 +56,14 @@ func c09Service(b *c09Strategy) *Service {
 
 var _ = util.ValidatorPubkey
 
+type c09AccountsByKey struct{}
+
+func (c09AccountsByKey) AccountByPublicKey(_ context.Context, key phase0.BLSPubKey) (e2wtypes.Account, error) {
+	a := &vstub.Account{Tag: 1, Nm: "acc"}
+	a.Key.B = key
+	return a, nil
+}
+
 // VerifC09_AuctionCache: what an auction decided is what a later request for
 // the bid of that slot, parent and validator is answered with - the winning bid,
 // or nothing when there was no winner - without a second auction; a request for
@@ -62,7 +72,15 @@ func VerifC09_AuctionCache() {
 	b := &c09Strategy{winners: []bool{vnd.Bool("auction.has-winner")}}
 	s := c09Service(b)
 	parent := phase0.Hash32{1}
-	res, err := s.auctionBlock(context.Background(), 5, parent, phase0.BLSPubKey{7}, nil)
+	// through the public entry point (which looks the account up by key) or directly
+	var res *blockauctioneer.Results
+	var err error
+	if vnd.Bool("auction.through-the-public-entry") {
+		s.accountsProvider = c09AccountsByKey{}
+		res, err = s.AuctionBlock(context.Background(), 5, parent, phase0.BLSPubKey{7})
+	} else {
+		res, err = s.auctionBlock(context.Background(), 5, parent, phase0.BLSPubKey{7}, nil)
+	}
 	vnd.Assert(err == nil && res != nil && b.calls == 1, "C09.cache.auction-held")
 	same := vnd.Bool("request.same-key")
 	askParent, askKey := parent, phase0.BLSPubKey{7}
